@@ -96,7 +96,7 @@ template <typename V = void, typename E = StopError, typename Func>
 
 template <typename V = void, typename E = StopError, typename Func>
 /*SharedFuture*/ auto AsyncSharedContract(Func&& f) {
-  return detail::RunShared<V, E>(MakeInline(), std::forward<Func>(f));
+  return detail::RunShared<V, E>(MakeInline(), std::forward<Func>(f)).On(nullptr);
 }
 
 /**
